@@ -559,25 +559,25 @@ Section Detect.
 Variable gunzip_prefix : bytes -> option bytes.
 
 Lemma detect_stream_whole data :
-  detect_stream gunzip_prefix (mk_reader data [] None) = inl (detect_container gunzip_prefix data).
+  detect_stream_first_chunk gunzip_prefix (mk_reader data [] None) = inl (detect_container gunzip_prefix data).
 Proof.
-  unfold detect_stream, fill_buf, mk_reader. cbn [avail rest sched failin Nat.ltb Nat.leb].
+  unfold detect_stream_first_chunk, fill_buf, mk_reader. cbn [avail rest sched failin Nat.ltb Nat.leb].
   rewrite Nat.min_id, firstn_all. reflexivity.
 Qed.
 
 (* when the first chunk is the whole stream, detection sees the container's magic *)
 Theorem detect_whole_vcf data : (match data with 31 :: 139 :: _ => False | 66 :: 67 :: 70 :: _ => False | _ => True end) ->
-  detect_stream gunzip_prefix (mk_reader data [] None) = inl CVcf.
+  detect_stream_first_chunk gunzip_prefix (mk_reader data [] None) = inl CVcf.
 Proof.
   intro H. rewrite detect_stream_whole. f_equal. unfold detect_container.
   repeat (match goal with
           | |- context [match ?x with _ => _ end] => is_var x; destruct x
           end; cbn beta iota in * ); try reflexivity; try (exfalso; exact H).
 Qed.
-Theorem detect_whole_bcf data : detect_stream gunzip_prefix (mk_reader (66 :: 67 :: 70 :: data) [] None) = inl CBcf.
+Theorem detect_whole_bcf data : detect_stream_first_chunk gunzip_prefix (mk_reader (66 :: 67 :: 70 :: data) [] None) = inl CBcf.
 Proof. rewrite detect_stream_whole. reflexivity. Qed.
 (* refutation of schedule independence for detection: a first chunk of one byte hides the magic *)
 Theorem detect_short_first_chunk_refuted :
-  exists data sch, detect_stream gunzip_prefix (mk_reader data sch None) <> detect_stream gunzip_prefix (mk_reader data [] None).
+  exists data sch, detect_stream_first_chunk gunzip_prefix (mk_reader data sch None) <> detect_stream_first_chunk gunzip_prefix (mk_reader data [] None).
 Proof. exists [66; 67; 70], [1%nat]. intro H. vm_compute in H. discriminate H. Qed.
 End Detect.
